@@ -4,13 +4,14 @@ use noodles_bcf as bcf;
 use noodles_bgzf as bgzf;
 use noodles_vcf::{self as vcf, variant::io::Read as _};
 
+use super::builder::Source;
 use crate::variant::Record;
 
 pub(super) enum Inner<R> {
-    Bcf(bcf::io::Reader<bgzf::io::Reader<BufReader<R>>>),
-    BcfRaw(bcf::io::Reader<BufReader<R>>),
-    Vcf(vcf::io::Reader<BufReader<R>>),
-    VcfGz(vcf::io::Reader<bgzf::io::Reader<BufReader<R>>>),
+    Bcf(bcf::io::Reader<bgzf::io::Reader<BufReader<Source<R>>>>),
+    BcfRaw(bcf::io::Reader<BufReader<Source<R>>>),
+    Vcf(vcf::io::Reader<BufReader<Source<R>>>),
+    VcfGz(vcf::io::Reader<bgzf::io::Reader<BufReader<Source<R>>>>),
 }
 
 impl<R> Inner<R>
